@@ -843,8 +843,9 @@ func (f *fragment) unprotectedSetRow(row *Row, rowID uint64) (changed bool, err 
 		f.cache.BulkAdd(rowID, n)
 	}
 
-	// invalidate rowCache for this row.
+	// invalidate rowCache and block checksum for this row.
 	f.rowCache.Add(rowID, nil)
+	delete(f.checksums, int(rowID/HashBlockSize))
 
 	// Snapshot storage. The row was replaced directly in storage without an
 	// op-log entry, so it is durable only once the snapshot is written: write
@@ -896,6 +897,7 @@ func (f *fragment) unprotectedClearRow(rowID uint64) (changed bool, err error) {
 	// Clear the row in cache.
 	f.cache.Add(rowID, 0)
 	f.rowCache.Add(rowID, nil)
+	delete(f.checksums, int(rowID/HashBlockSize))
 
 	// Snapshot storage. As in setRow there is no op-log entry, so write the
 	// snapshot before acknowledging.
@@ -2297,6 +2299,7 @@ func (f *fragment) importRoaring(ctx context.Context, data []byte, clear bool) e
 			continue
 		}
 		f.rowCache.Add(rowID, nil)
+		delete(f.checksums, int(rowID/HashBlockSize))
 		if updateCache {
 			anyChanged = true
 			f.cache.BulkAdd(rowID, f.cache.Get(rowID)+uint64(changes))
